@@ -15,14 +15,14 @@ TECHNIQUE = 'Hypothesis-generated model programs with spy components; NumPy posi
 RULE = ("case = model spec (see C01) with emphasis on connections: every index form of the C05 grammar that connect() "
         "documents x flat_src_indices in {None, True, False} on 1-, 2-, 3-D sources, scale and offset units, auto-IVC "
         "(unconnected) inputs, promoted inputs with src_indices, feedback loops (NLBGS / Newton / NLBJ). Every component "
-        "evaluation (compute / apply_nonlinear) is one observation; one case in eight is a discrete-variable model (a source that writes a Python object - int, str, list, dict, None - into a discrete output that is connected or promoted to 1-3 discrete inputs, run at several input values). Non-trivial = a connection with src_indices on a "
+        "evaluation (compute / apply_nonlinear) is one observation; one case in eight is a discrete-variable model (a source that writes a Python object - int, str, list, dict, None - into a discrete output that is connected or promoted to 1-3 discrete inputs, run at several input values); one case in nine is a resize history (setup/run, change the size of the source through a component option, setup/run again with the same connect()/promotes() src_indices objects). Non-trivial = a connection with src_indices on a "
         "rank>=2 source, or an offset unit, or a negative index, in a model that ran. Distinct = distinct canonical JSON.")
 ASSUMPTIONS = [
     "serial DefaultVector/DefaultTransfer only",
     "the per-evaluation clause is not judged under NonlinearBlockJac (Jacobi uses the previous iterate by design); the "
     "after-run clause is judged for every converged model",
     "outputs carry no ref/ref0 here (C08 covers scaling), so the root output vector holds physical values during a solve",
-    "tolerance 1e-12 relative to max(|value|, |offset|) per input; after run_model of a model with a feedback loop the "
+    "tolerance 1e-12 relative to max(|value|, |offset|) per input; after run_model of a model with a feedback loop or any iterating nonlinear solver the "
     "tolerance is the solver tolerance (1e-8 relative), because an input holds the value of the last transfer",
 ]
 MIN_CLASS_FRACTION = {'ran': 0.6}
@@ -105,9 +105,93 @@ def check_discrete(case):
     return res
 
 
+def check_resize(case):
+    """History clause: setup/run, resize the source (a component option), setup/run again.  The same connection objects
+    (connect(..., src_indices=...) / promotes(..., src_indices=...)) are re-used by the second setup; the input must hold
+    the NumPy-indexed values of the NEW source."""
+    import openmdao.api as om
+    from vfw.gen_model import dec_idx
+    res = Result(classes=['resize', 'via_' + case['via'], 'rank%d' % (2 if case['cols'] else 1)])
+    cols = case['cols']
+
+    def shape(n):
+        return (n, cols) if cols else (n,)
+
+    class Src(om.ExplicitComponent):
+        def initialize(self):
+            self.options.declare('n', default=case['sizes'][0])
+
+        def setup(self):
+            self.add_input('x', 1.0)
+            self.add_output('y', val=np.zeros(shape(self.options['n'])))
+            self.declare_partials('y', 'x', method='fd')
+
+        def compute(self, inputs, outputs):
+            sh = shape(self.options['n'])
+            outputs['y'] = (1.0 + np.arange(int(np.prod(sh)), dtype=float).reshape(sh)) * inputs['x']
+
+    seen = {}
+
+    class Sink(om.ExplicitComponent):
+        def initialize(self):
+            self.options.declare('shape')
+
+        def setup(self):
+            self.add_input('a', val=np.zeros(self.options['shape']))
+            self.add_output('b', val=np.zeros(self.options['shape']))
+            self.declare_partials('b', 'a', method='fd')
+
+        def compute(self, inputs, outputs):
+            seen['a'] = np.array(inputs['a'])
+            outputs['b'] = 2.0 * inputs['a']
+
+    idx = dec_idx(case['idx'])
+    exp_shapes = [np.zeros(shape(n))[idx].shape for n in case['sizes']]
+    if len(set(exp_shapes)) != 1 or 0 in exp_shapes[0]:
+        res.discard = 'selection-shape-depends-on-size'
+        return res
+    try:
+        p = om.Problem(reports=False)
+        src = p.model.add_subsystem('src', Src())
+        if case['via'] == 'connect':
+            p.model.add_subsystem('tgt', Sink(shape=exp_shapes[0]))
+            p.model.connect('src.y', 'tgt.a', src_indices=idx)
+            tname = 'tgt.a'
+        else:
+            g = p.model.add_subsystem('g', om.Group())
+            g.add_subsystem('tgt', Sink(shape=exp_shapes[0]))
+            p.model.promotes('src', outputs=[('y', 'yy')])
+            g.promotes('tgt', inputs=[('a', 'aa')])
+            p.model.promotes('g', inputs=[('aa', 'yy')], src_indices=idx)
+            tname = 'g.tgt.a'
+        for k, n in enumerate(case['sizes']):
+            src.options['n'] = n
+            p.setup()
+            x = case['xs'][k % len(case['xs'])]
+            p.set_val('src.x', x)
+            p.run_model()
+            sh = shape(n)
+            exp = ((1.0 + np.arange(int(np.prod(sh)), dtype=float).reshape(sh)) * x)[idx]
+            for label, got in (('at-evaluation', seen.get('a')), ('input-vector', np.asarray(p.get_val(tname, from_src=False)))):
+                if got is None or np.asarray(got).shape != exp.shape or np.any(np.abs(np.asarray(got) - exp) > 1e-12 * (1 + np.abs(exp))):
+                    res.fail(f"resize:input-differs-from-source-{label}",
+                             f"setup {k} (source shape {sh}): {tname} {label} = {None if got is None else np.asarray(got).tolist()} "
+                             f"expected {exp.tolist()}")
+    except Exception as e:
+        sig = core.repo_frame_signature(e, 'resize')
+        if sig is None:
+            raise
+        res.fail(sig, f"{type(e).__name__}: {e}")
+    res.nontrivial = True
+    res.classes.append('ran')
+    return res
+
+
 def check(case):
     if case.get('kind') == 'discrete':
         return check_discrete(case)
+    if case.get('kind') == 'resize':
+        return check_resize(case)
     import openmdao.api as om
     from vfw.gen_model import build_problem
     from vfw.refmodel import RefModel, absname
@@ -183,8 +267,11 @@ def check(case):
             m = ref.inmap[an]
             exp = ref.input_val(an, u, x)
             # inside a converged feedback loop an input holds the value of the last transfer: solver tolerance applies
-            rt = 1e-8 if spec.get('feedback') else 1e-12
-            tol = rt * (np.abs(exp) + abs(m.get('o', 0.0)) + (1.0 if spec.get('feedback') else 0.0)) + 1e-14
+            # (the same holds for any model with an iterating nonlinear solver: a Newton solver at the root also updates
+            # the independent outputs, by the round-off of its linear solve, after the last transfer)
+            iterating = bool(spec.get('feedback')) or any(g.get('nl') not in (None, 'runonce') for g in spec['groups'].values())
+            rt = 1e-8 if iterating else 1e-12
+            tol = rt * (np.abs(exp) + abs(m.get('o', 0.0)) + (1.0 if iterating else 0.0)) + 1e-14
             for label, kw in (('from_src=False', dict(from_src=False)), ('get_val', {})):
                 if m['kind'] == 'const' and label == 'get_val':
                     pass
@@ -221,7 +308,33 @@ def strategy(tier):
         'obj': st.sampled_from(['int', 'str', 'list', 'dict', 'none']), 'nested': st.booleans(),
         'nsinks': st.integers(1, 3), 'xs': st.lists(st.integers(-3, 5), min_size=1, max_size=3)})
     main = model_spec(prof).map(lambda s: {'spec': s})
-    return st.integers(0, 7).flatmap(lambda k: discrete if k == 0 else main)
+
+    @st.composite
+    def resize(draw):
+        # a source whose first dimension changes between two or three setups of the same Problem; indices that are valid
+        # for every size and select the same number of entries (ints of either sign, index lists, slices anchored at one end)
+        sizes = draw(st.lists(st.integers(3, 8), min_size=2, max_size=3).filter(lambda l: len(set(l)) > 1))
+        m = min(sizes)
+        cols = draw(st.sampled_from([0, 0, 2, 3]))
+        form = draw(st.sampled_from(['list', 'list', 'int', 'slice_lo', 'slice_hi']))
+        if form == 'list':
+            first = {'a': draw(st.lists(st.integers(-m, m - 1), min_size=1, max_size=3)), 'list': True}
+        elif form == 'int':
+            first = {'a': [draw(st.integers(-m, m - 1))], 'list': True}
+        elif form == 'slice_lo':
+            first = {'s': [None, draw(st.integers(1, m)), None]}
+        else:
+            first = {'s': [-draw(st.integers(1, m)), None, None]}
+        if cols:
+            second = draw(st.sampled_from([{'s': [None, None, None]}, {'i': draw(st.integers(-cols, cols - 1))},
+                                           {'s': [0, 1, None]}]))
+            idx = {'t': [first, second]}
+        else:
+            idx = first
+        return {'kind': 'resize', 'sizes': sizes, 'cols': cols, 'idx': idx, 'via': draw(st.sampled_from(['connect', 'promote'])),
+                'xs': [draw(st.sampled_from([1.0, -2.0, 0.5])) for _ in range(2)]}
+
+    return st.integers(0, 8).flatmap(lambda k: discrete if k == 0 else (resize() if k == 1 else main))
 
 
 def units(tier, seed):
